@@ -35,9 +35,11 @@ MUTANTS = [
      "    return '{0}{1:02d}:{2:02d}:{3:05.2f}'.format(sign, d, m, s / 100.0)",
      "    return '{0}{1:02d}:{2:02d}:{3:05.2f}'.format(sign, d, m, s / 10.0)",
      "C17-R12"),
-    ("negative RA wrapped the wrong way", "AegeanTools/angle_tools.py",
-     "        x += 360\n    x /= 15.0", "        x -= 360\n    x /= 15.0",
-     "C17-R12"),
+    ("minutes of time split with the wrong unit", "AegeanTools/angle_tools.py",
+     "    h, rem = divmod(total, 3600 * 100)\n    m, s = divmod(rem, 60 * 100)\n"
+     "    # RA is periodic",
+     "    h, rem = divmod(total, 3600 * 100)\n    m, s = divmod(rem, 60 * 10)\n"
+     "    # RA is periodic", "C17-R12"),
     ("clamp decided for the array as a whole", "AegeanTools/angle_tools.py",
      "    factor = np.clip(factor, -1, 1)\n",
      "    if np.any(np.abs(factor) >= 1):\n        factor = np.sign(factor)\n"
